@@ -16,6 +16,7 @@ const (
 	cbValRead
 	cbKeyCompare
 	cbRefCount
+	cbChunkMem // values chunked IN MEMORY (Val = first chunk, rest in Transient): the tools/slab pattern
 )
 
 const cbAllNeutral = cbBeforeWrite | cbAfterRead | cbItemAlloc | cbValLength | cbValWrite | cbValRead | cbKeyCompare
@@ -65,6 +66,33 @@ func neutralCallbacks(set int, cmpOf map[string]int) gkvlite.StoreCallbacks {
 				}
 			}
 			i.Val = v
+			return nil
+		}
+	}
+	if set&cbChunkMem != 0 {
+		cb.ItemValLength = func(c *gkvlite.Collection, i *gkvlite.Item) int { return len(fullVal(i)) }
+		cb.ItemValWrite = func(c *gkvlite.Collection, i *gkvlite.Item, w io.WriterAt, offset int64) error {
+			if _, err := w.WriteAt(i.Val, offset); err != nil {
+				return err
+			}
+			off := offset + int64(len(i.Val))
+			if mc, ok := i.Transient.(*memChunk); ok && mc != nil {
+				for _, ch := range mc.rest {
+					if _, err := w.WriteAt(ch, off); err != nil {
+						return err
+					}
+					off += int64(len(ch))
+				}
+			}
+			return nil
+		}
+		cb.ItemValRead = func(c *gkvlite.Collection, i *gkvlite.Item, r io.ReaderAt, offset int64, valLength uint32) error {
+			v := make([]byte, valLength)
+			if _, err := r.ReadAt(v, offset); err != nil {
+				return err
+			}
+			ci := chunkItem(nil, v, 0)
+			i.Val, i.Transient = ci.Val, ci.Transient
 			return nil
 		}
 	}
